@@ -143,8 +143,14 @@ func errorsRule(c *Ctx, rule string, keep func(pos string) bool) {
 				if !in {
 					continue
 				}
-			} else if ex.Fn != fname || ex.Callee != callee {
+			} else if ex.Callee != callee {
 				continue
+			} else if ex.Fn != fname {
+				// the site may have moved into a helper split out of the named function
+				anchorFn := funcByDisplayName(c, ex.Fn)
+				if anchorFn == nil || anchorFn == s.Fn || !c.Scope(anchorFn).Contains(s.Fn) {
+					continue
+				}
 			}
 			for _, v := range ex.Verdicts {
 				if v == flow.Verdict {
@@ -469,4 +475,14 @@ func flipOp(op token.Token) token.Token {
 		return token.LEQ
 	}
 	return op
+}
+
+// funcByDisplayName finds the library function with that stable display name.
+func funcByDisplayName(c *Ctx, name string) *ssa.Function {
+	for _, f := range c.P.RepoFuncs(an.LibraryPkg) {
+		if f.Parent() == nil && core.FuncName(f) == name {
+			return f
+		}
+	}
+	return nil
 }
